@@ -750,3 +750,103 @@ def rf13s(run):
                           'the encoder emits other bytes than its input and the decoder reproduces them (lengths and the check hash of the '
                           'input disagree: a complete unmodified stream is rejected, losslessness is lost)' % (P, old_len, why), line=f.line)
     return n
+
+
+# ---------------------------------------------------------------------------------------------
+# RF105: a back reference is computed from the dictionary as the lookup left it
+# ---------------------------------------------------------------------------------------------
+
+def rf105(run):
+    rule = 'RF105'
+    run.rule(rule, 'mir-reduce.h encoder, _reduce_encode_buf: the offset passed to _reduce_output_ref is computed from dictionary state '
+                   '(data->curr_num, fields of a dictionary element) that is read after the lookup _reduce_dict_find_longest and before '
+                   'the next _reduce_dict_add: the insertion advances curr_num and may recycle the very element the lookup returned, so '
+                   'a read behind it yields offset 0 or an offset to another position and the decoder, which accepts it, restores '
+                   'different bytes')
+    tu = run.tu('mir')
+    f = tu.func('_reduce_encode_buf')
+    cfg = f.cfg
+    run.functions_analysed.add(('mir', f.name))
+    calls = [n for n in f.walk() if n['k'] == 'CallExpr' and n.get('callee') == '_reduce_output_ref']
+    if not calls:
+        raise F.AnalysisBroken('_reduce_encode_buf: no call of _reduce_output_ref')
+
+    def is_state_read(x):
+        if x['k'] != 'MemberExpr':
+            return False
+        s = F.src(x)
+        return s.endswith('curr_num') or s.endswith('->num') or s.endswith('.num') or s.endswith('->pos') and 'table' in s \
+            or (x.get('arrow') and x.get('n') in ('num', 'pos', 'next'))
+
+    assigns = {}
+    for n in f.walk():
+        if n['k'] == 'BinaryOperator' and n['op'] == '=':
+            l = F.strip(n['c'][0])
+            if l['k'] == 'DeclRefExpr':
+                assigns.setdefault(l['n'], []).append(n['c'][1])
+        elif n['k'] == 'DeclStmt':
+            for d in n.get('decls', []):
+                if d.get('init') is not None:
+                    assigns.setdefault(d['n'], []).append(d['init'])
+
+    reads = []   # memory reads the offset depends on
+
+    def leaves(e, depth, seen):
+        for x in F.walk(e):
+            if is_state_read(x):
+                reads.append(x)
+            elif x['k'] == 'DeclRefExpr' and x.get('n') in assigns and x['n'] not in seen and depth < 4:
+                seen.add(x['n'])
+                for r in assigns[x['n']]:
+                    leaves(r, depth + 1, seen)
+    for c in calls:
+        args = F.kids(c)[1:]
+        if len(args) < 2:
+            raise F.AnalysisBroken('_reduce_output_ref call shape')
+        leaves(args[1], 0, set())
+    read_ids = {x['i'] for x in reads}
+
+    # forward may-analysis: dirty = a _reduce_dict_add was executed since the last lookup
+    def transfer(B, dirty, report):
+        seen = set()
+        for e in B.elems:
+            # nested calls are listed as elements of their own before the full expression: visit every node once, in that order
+            for x in reversed(list(cfg.local_walk(e))):
+                if x['i'] in seen:
+                    continue
+                seen.add(x['i'])
+                if x['k'] == 'CallExpr' and x.get('callee') == '_reduce_dict_find_longest':
+                    dirty = False
+                elif x['k'] == 'CallExpr' and x.get('callee') == '_reduce_dict_add':
+                    dirty = True
+                elif report is not None and x['i'] in read_ids:
+                    report[x['i']] = report.get(x['i'], False) or dirty
+        return dirty
+    inn = {b: False for b in cfg.blocks}
+    changed = True
+    while changed:
+        changed = False
+        for b in cfg.rpo():
+            out = transfer(cfg.blocks[b], inn[b], None)
+            for s in cfg.live_succs(b):
+                if out and not inn[s]:
+                    inn[s] = True
+                    changed = True
+    rep = {}
+    for b in cfg.blocks:
+        transfer(cfg.blocks[b], inn[b], rep)
+    n = 0
+    for x in reads:
+        if x['i'] not in rep:
+            continue
+        n += 1
+        ok = not rep[x['i']]
+        run.ob(rule, (x['l'], F.src(x)), ok, {'read': F.src(x), 'line': x['l']})
+        if not ok:
+            run.violation(rule, f, 'offset from `%s` read behind _reduce_dict_add' % F.src(x),
+                          'the back-reference offset depends on `%s` (line %d), which is read after _reduce_dict_add ran for the current '
+                          'position: the insertion has advanced curr_num and can have recycled the element the lookup returned, so the '
+                          'reference points to other bytes than the ones matched' % (F.src(x), x['l']), line=x['l'])
+    if n == 0:
+        raise F.AnalysisBroken('_reduce_encode_buf: the offset of _reduce_output_ref depends on no dictionary read')
+    return n
